@@ -272,8 +272,17 @@ def _alarm(signum, frame):
     raise CaseTimeout()
 
 
+_COV = None
+
+
 def _worker_init():
+    global _COV
     sys.path.insert(0, REPO)
+    if os.environ.get("VERIF_COV"):      # development aid: which lines of the code under test the cases reach
+        import coverage
+        _COV = coverage.Coverage(data_file=os.path.join(os.environ["VERIF_COV"], ".coverage"), data_suffix=True,
+                                 branch=True, source=[os.path.join(REPO, "torrentfile")])
+        _COV.start()
     sys.dont_write_bytecode = True
     devnull = os.open(os.devnull, os.O_WRONLY)
     os.dup2(devnull, 1)
@@ -294,6 +303,8 @@ def _run_case(args):
         return {"id": case.get("id", -1), "status": "timeout", "case": case}
     finally:
         signal.alarm(0)
+        if _COV is not None:
+            _COV.save()
 
 
 def run_cases(fn, cases, timeout=120, procs=None, chunksize=4, isolate=False):
